@@ -26,6 +26,8 @@ type c02Case struct {
 	KeyIDs                                       map[string]string
 	NoPubKeyDir                                  bool
 	KeyDir                                       string `json:",omitempty"` // layout of the registered-key directory ("" = <name>.pub)
+	SigAlgo                                      int    `json:",omitempty"` // client-declared signature algorithm (a claim that must not influence the request)
+	HardKeyClaim, Touch2SSH                      bool   `json:",omitempty"`
 	Algos                                        []int  `json:",omitempty"` // one requested CA key algorithm per consecutive request on the same handler (default: Algo twice)
 }
 
@@ -92,6 +94,9 @@ func c02Run(c *ev.Ctx, k c02Case) {
 		p.ReqUser, p.ReqHost, p.ClientIP, p.TransID = k.ReqUser, k.ReqHost, k.ClientIP, k.TransID+fmt.Sprint(round)
 		p.Attrs.Username, p.Attrs.Hostname = k.ReqUser, k.ReqHost
 		p.Attrs.CAPubKeyAlgo = x509.PublicKeyAlgorithm(k.Algo)
+		p.Attrs.SignatureAlgo = x509.SignatureAlgorithm(k.SigAlgo)
+		p.SignatureAlgo = x509.SignatureAlgorithm(k.SigAlgo)
+		p.Attrs.Touch2SSH = k.Touch2SSH
 		caBefore, addsBefore := len(e.ca.Reqs), len(e.ua.Ring.AddLog)
 		err, esc := e.run(p, []gensign.Handler{e.handler})
 		if esc != "" {
@@ -187,7 +192,7 @@ func c02Run(c *ev.Ctx, k c02Case) {
 
 func checkC02(c *ev.Ctx) {
 	defer cleanupScratch()
-	c.Rule("real gensign.Run + regular.Handler, honest agent, recording CA; the signing request received by the CA is compared with a reference record built from server-side inputs: strings {plain, JSON metacharacters, <>&, non-ASCII, 200 chars, empty, literal JSON/HTML escape texts (\\u0026, \\\\u003c, &lt;, \\n), U+2028/2029, control characters} for login/user/host/IP/transaction id varied one field at a time and jointly; 10 login names that interact with the key-file lookup ('.pub' suffixes, dots, case) x directory layouts {<name>.pub, bare <name>, both} x CA algorithm{0,1,2,3,4,99}; handler configurations: validity{1,3600,43200,315360000,2^32+43200} x every non-colliding subset (size<=3; thorough <=4) of key_identifiers keys {rsa,RSA,Ecdsa,ed25519,default,unknown,1,3,99} x algorithm; two consecutive requests per case; every sequence of 1..4 requests over 5 algorithms (3 configured, 2 not) on one long-lived handler. non-trivial = request signed and compared; distinct by case")
+	c.Rule("real gensign.Run + regular.Handler, honest agent, recording CA; the signing request received by the CA is compared with a reference record built from server-side inputs: strings {plain, JSON metacharacters, <>&, non-ASCII, 200 chars, empty, literal JSON/HTML escape texts (\\u0026, \\\\u003c, &lt;, \\n), U+2028/2029, control characters} for login/user/host/IP/transaction id varied one field at a time and jointly; 10 login names that interact with the key-file lookup ('.pub' suffixes, dots, case) x directory layouts {<name>.pub, bare <name>, both} x CA algorithm{0,1,2,3,4,99}; handler configurations: validity{1,3600,43200,315360000,2^32+43200} x every non-colliding subset (size<=3; thorough <=4) of key_identifiers keys {rsa,RSA,Ecdsa,ed25519,default,unknown,1,3,99} x algorithm; two consecutive requests per case; client-declared signature algorithm 0..17 x touch-to-SSH x requested algorithm {omitted,1,3,4} x 3 slot configurations; every sequence of 1..4 requests over 5 algorithms (3 configured, 2 not) on one long-lived handler. non-trivial = request signed and compared; distinct by case")
 	c.Assume("key_identifiers names are normalised case-insensitively or numerically (reference table in the harness)")
 	if c.ReplayCase != nil {
 		var k c02Case
@@ -285,6 +290,21 @@ func checkC02(c *ev.Ctx) {
 	nk := base
 	nk.NoPubKeyDir = true
 	c02Run(c, nk)
+	// the other client claims (declared signature algorithm 0..17, touch-to-SSH) against the requested CA key algorithm being
+	// omitted or given, under configurations with and without a default slot: only the requested CA key algorithm selects
+	// the slot
+	for sa := 0; sa <= 17; sa++ {
+		for _, algo := range []int{0, 1, 3, 4} {
+			for _, ids := range []map[string]string{allIDs, {"rsa": "slot-rsa", "ecdsa": "slot-ecdsa", "ed25519": "slot-ed"}, {"default": "slot-default", "rsa": "slot-rsa"}} {
+				for _, t2 := range []bool{false, true} {
+					k := base
+					k.KeyIDs, k.Algo, k.SigAlgo, k.Touch2SSH = ids, algo, sa, t2
+					c02Run(c, k)
+					n++
+				}
+			}
+		}
+	}
 	// sequences of requests on ONE long-lived handler: every sequence of length 1..4 over {two configured algorithms, two
 	// unconfigured ones}; each request is judged on its own (a refusal must not change what the next request gets)
 	{
